@@ -128,14 +128,19 @@ taskreport {report_id} "{report_id}" {{
     temp_fd, temp_path = tempfile.mkstemp(suffix=".tjp", prefix="plan_auto_")
     temp_file = Path(temp_path)
 
-    # Write combined content and close file descriptor
-    with os.fdopen(temp_fd, "w") as f:
-        # Include original file
-        f.write(f"# Original file: {tjp_path}\n")
-        f.write("# Auto-report added by plan CLI\n\n")
-        f.write(original_content)
-        f.write("\n\n")
-        f.write(auto_report)
+    # Write combined content and close file descriptor. If writing fails (a file name
+    # that cannot be encoded, a full disk) the temporary file must not stay behind.
+    try:
+        with os.fdopen(temp_fd, "w") as f:
+            # Include original file
+            f.write(f"# Original file: {tjp_path}\n")
+            f.write("# Auto-report added by plan CLI\n\n")
+            f.write(original_content)
+            f.write("\n\n")
+            f.write(auto_report)
+    except BaseException:
+        temp_file.unlink(missing_ok=True)
+        raise
 
     return temp_file, report_id
 
